@@ -195,3 +195,15 @@ func mutexHeld(m any) bool {
 	}
 	return false
 }
+
+// boolPeek reads an atomic flag of the code under test without a scheduling point
+// (vatomic.Bool under the shims, sync/atomic.Bool in the free-running units).
+func boolPeek(b any) bool {
+	if p, ok := b.(interface{ Peek() bool }); ok {
+		return p.Peek()
+	}
+	if l, ok := b.(interface{ Load() bool }); ok {
+		return l.Load()
+	}
+	return false
+}
